@@ -272,12 +272,24 @@ public:
         m_eraseCount(0),
         m_eraseThreshold(theRhs.m_eraseThreshold)
     {
-        const_iterator entry = theRhs.begin();
-
-        while(entry != theRhs.end())
+        try
         {
-            insert(*entry);
-            ++entry;
+            const_iterator entry = theRhs.begin();
+
+            while(entry != theRhs.end())
+            {
+                insert(*entry);
+                ++entry;
+            }
+        }
+        catch(...)
+        {
+            // The destructor does not run for an instance that
+            // was not constructed completely: destroy the entries
+            // copied so far and release their blocks here.
+            doReleaseEntries();
+
+            throw;
         }
 
         assert(m_size == theRhs.m_size);
@@ -293,20 +305,7 @@ public:
 
     ~XalanMap()
     {
-        doRemoveEntries();
-
-        // (m_freeEntries.begin() would allocate the head node of
-        // a free list that was never used.)
-        if (!m_buckets.empty() && !m_freeEntries.empty())
-        {
-            EntryListIterator   toRemove = m_freeEntries.begin();
-
-            while(toRemove != m_freeEntries.end())
-            {
-                deallocate(toRemove->value);
-                ++toRemove;
-            }      
-        }
+        doReleaseEntries();
     }
 
     XalanMap&
@@ -495,7 +494,21 @@ protected:
 
         if (m_freeEntries.empty())
         {
-            m_freeEntries.push_back(Entry(allocate(1)));
+            value_type* const   theValue = allocate(1);
+
+            try
+            {
+                m_freeEntries.push_back(Entry(theValue));
+            }
+            catch(...)
+            {
+                // The list could not allocate a node for the new
+                // entry, so nothing refers to the block: release
+                // it, instead of losing it.
+                deallocate(theValue);
+
+                throw;
+            }
         }
 
         // insert a new entry as the first position in the bucket
@@ -568,6 +581,27 @@ protected:
         while(size() > 0)
         {
             doRemoveEntry(begin());
+        }
+    }
+
+    // Destroys the entries and releases the blocks of all of them
+    // (the nodes of the two lists are released by the lists).
+    void
+    doReleaseEntries()
+    {
+        doRemoveEntries();
+
+        // (m_freeEntries.begin() would allocate the head node of
+        // a free list that was never used.)
+        if (!m_buckets.empty() && !m_freeEntries.empty())
+        {
+            EntryListIterator   toRemove = m_freeEntries.begin();
+
+            while(toRemove != m_freeEntries.end())
+            {
+                deallocate(toRemove->value);
+                ++toRemove;
+            }
         }
     }
 
